@@ -633,6 +633,39 @@ def opFacts : OpFacts :=
 			retMany = findCmp(c, "len(n.child)", "sc.def.typ.numOut()")
 			retFew = findCmp(c, "nret", "sc.def.typ.numOut()")
 		}
+		// typeAssertionExpr: inside `if tm == nil { … }`, the if statement whose body is `continue`
+		assertSkip := ".other " + common.LeanStr("unrecognised: typeAssertionExpr")
+		if fd := common.FindFunc(tc, "typecheck", "typeAssertionExpr"); fd != nil {
+			found := 0
+			ast.Inspect(fd, func(n ast.Node) bool {
+				is, ok := n.(*ast.IfStmt)
+				if !ok || src(is.Cond) != "tm == nil" {
+					return true
+				}
+				for _, st := range is.Body.List {
+					in, ok := st.(*ast.IfStmt)
+					if !ok || len(in.Body.List) != 1 || src(in.Body.List[0]) != "continue" {
+						continue
+					}
+					found++
+					switch src(in.Cond) {
+					case "!token.IsExported(name) && isBin(typ)":
+						assertSkip = ".andBin"
+					case "!token.IsExported(name) || isBin(typ)":
+						assertSkip = ".orBin"
+					default:
+						assertSkip = ".other " + common.LeanStr(src(in.Cond))
+					}
+				}
+				if l := len(is.Body.List); l == 0 || !strings.HasPrefix(src(is.Body.List[l-1]), "return n.cfgErrorf(\"impossible type assertion") {
+					assertSkip = ".other " + common.LeanStr("the missing-method block does not end with the error")
+				}
+				return false
+			})
+			if found != 1 && !strings.HasPrefix(assertSkip, ".other") {
+				assertSkip = ".other " + common.LeanStr(fmt.Sprintf("%d skip tests in the missing-method block", found))
+			}
+		}
 		fmt.Fprintf(&b, `/-- interp/cfg.go call sites of the checker and guards; interp/typecheck.go arguments -/
 def tcFacts : TcFacts :=
   { ops := opFacts,
@@ -641,8 +674,9 @@ def tcFacts : TcFacts :=
     argCountCmp := %s,
     retTooManyCmp := %s,
     retTooFewCmp := %s,
-    condBoolGuarded := %v }
-`, landLor, send, argCmp, retMany, retFew, guardedAll)
+    condBoolGuarded := %v,
+    assertSkipMissing := %s }
+`, landLor, send, argCmp, retMany, retFew, guardedAll, assertSkip)
 
 		// ---- pipeline
 		funcs, err := pkgFuncs(repo)
@@ -733,7 +767,7 @@ def pipeline : PipelineFacts :=
 		var rows []string
 		row := func(label, h string) { rows = append(rows, "("+common.LeanStr(label)+", "+common.LeanStr(h)+")") }
 		for _, fn := range []string{"op", "assignment", "assignExpr", "unaryExpr", "shift", "comparison", "binaryExpr", "index", "conversion",
-			"unpackParams", "arguments", "argument", "convertUntyped", "representable", "convertConst"} {
+			"unpackParams", "arguments", "argument", "convertUntyped", "representable", "convertConst", "typeAssertionExpr"} {
 			row("typecheck."+fn, common.FuncHash(fsetT, tc, "typecheck", fn))
 		}
 		for _, fn := range []string{"zeroConst", "getArg", "representableConst", "isShiftAction", "isComparisonAction"} {
@@ -741,6 +775,15 @@ def pipeline : PipelineFacts :=
 		}
 		for _, fn := range []string{"assignableTo", "convertibleTo", "ordered", "equals", "comparable", "implements", "defaultType", "hasNil", "isNil",
 			"methods", "id", "refType"} {
+			row("itype."+fn, common.FuncHash(fsetY, ty, "itype", fn))
+		}
+		for _, fn := range []string{"lookupFieldOrMethod", "isBin"} {
+			row(fn, common.FuncHash(fsetY, ty, "", fn))
+		}
+		for _, fn := range []string{"lookupMethod", "lookupField", "lookupBinMethod", "methods", "numIn", "numOut", "in", "out"} {
+			if fn == "methods" {
+				continue // already listed
+			}
 			row("itype."+fn, common.FuncHash(fsetY, ty, "itype", fn))
 		}
 		for _, fn := range []string{"typeDefined", "isInterface", "isInterfaceSrc", "isArray", "isConstType", "isBool", "isChan", "isSendChan", "isMap", "isFunc", "isPtr"} {
@@ -753,7 +796,7 @@ def pipeline : PipelineFacts :=
 			row("Interpreter."+fn, common.FuncHash(fsetP, pg, "Interpreter", fn))
 		}
 		for _, k := range []string{"landExpr", "lorExpr", "sendStmt", "returnStmt", "indexExpr", "incDecStmt", "unaryExpr", "binaryExpr",
-			"ifStmt0", "ifStmt1", "ifStmt2", "ifStmt3", "forStmt2", "forStmt3", "forStmt5", "forStmt7", "identExpr"} {
+			"ifStmt0", "ifStmt1", "ifStmt2", "ifStmt3", "forStmt2", "forStmt3", "forStmt5", "forStmt7", "identExpr", "typeAssertExpr", "typeSwitch"} {
 			row("cfg case "+k, clauseHash(lastClause(cl, k)))
 		}
 		b.WriteString("/-- fingerprints of the functions and cfg.go clauses that Model/Typecheck.lean transcribes -/\ndef sourceHashes : List (String × String) :=\n  [" +
